@@ -24,7 +24,31 @@ SUMMARY = {
  'C20-A': ('C20', 'second overflow check after the atomic add removed', 'fallback reserve nearly exhausted and >= 2 concurrent requesters: regions past the end of the reserve, no error'),
  'C20-B': ('C20', 'returned stub address rounded down to 16 bytes', 'one request whose size is not a multiple of 16 followed by any other: regions overlap'),
 }
-for sid, (prop, change, needs) in SUMMARY.items():
+
+SUMMARY.update({
+ 'C01-A': ('C01', 'patch object drops its references to origin/replacement after replaceFunc ("leak fix")', 'the replacement is a heap closure or Return stub, the user dropped the builder, and a GC runs: the closure the entry jump points at is collected'),
+ 'C01-B': ('C01', 'debug interceptor hoists its results slice out of the per-call closure', 'debug logging on, two goroutines inside the same mock at once, results that differ per call: a caller receives another call\'s results'),
+ 'C06-A': ('C06', 'Builder.Struct cache key uses Type().Elem() for pointers, so Struct(T{}) and Struct(&T{}) share a mocker', 'one builder: Struct(&T{}) first, then Struct(T{}).Method(V) with a value receiver: only the pointer wrapper is patched'),
+ 'C06-B': ('C06', 'GetInnerFunc reads one 64-byte block and gives up after offset 48', 'method of an instantiated generic type whose dictionary wrapper has its CALL beyond offset 48 (wide value receiver, >= 7 integer arguments): wrapper patched instead of the shape function'),
+ 'C07-A': ('C07', 'MakeInterface fills the not-implemented table once and writes the mocked slot through the shared template', 'a second fake itab in the process leaving un-mocked a slot an earlier one mocked: the un-mocked method dispatches to the earlier callback'),
+ 'C07-B': ('C07', 'GC holder for the MakeFunc object removed on the As()/Return path', '>= 2 methods of one variable stubbed via As().Return, a GC cycle, then a call to a method stubbed before the last'),
+ 'C09-A': ('C09', 'toValue treats typed nil like untyped nil', 'typed nil ((*E)(nil), []int(nil)) supplied for an interface-typed result: dynamic type lost'),
+ 'C09-B': ('C09', 'size check before cast() removed', 'different-typed struct of a different size supplied for a struct result/argument: accepted and reinterpreted'),
+ 'C10-A': ('C10', 'FindVarByName aligns the address down to 8 bytes', 'variables not on an 8-byte boundary (bool, int8, int16 runs)'),
+ 'C10-B': ('C10', 'unsynchronised last-hit memo in FindFuncByName', 'two goroutines looking up different names at once: name and address published mixed'),
+ 'C11-A': ('C11', 'WriteTo opens the page READ|WRITE without EXEC', 'another thread executing code on the page being patched'),
+ 'C11-B': ('C11', 'sequence cursor range check separated from its atomic increment', '>= 2 callers reach the last step of a multi-result sequence together: index out of range panic in the caller'),
+ 'C16-A': ('C16', 'PCRelOff taken from the read cursor after immediates were read', 'RIP-relative instruction followed by an immediate (CMPB $0, x(SB))'),
+ 'C16-B': ('C16', '15-byte clamp at the top of Decode removed', '16-byte window holding a real instruction padded with redundant legacy prefixes: Len = 16'),
+ 'C17-A': ('C17', 'ADRP displacement sign-extended from 32 instead of 33 bits', 'ADRP words with a page distance of 2 GiB or more'),
+ 'C17-B': ('C17', 'Cond.String() table lookup one entry short', 'condition field 0b1111 (NV) and the instruction being printed: panic'),
+ 'C18-A': ('C18', 'numeric equality through float64 conversion', '64-bit integers above 2^53 that round to the same float'),
+ 'C18-B': ('C18', 'InExpr.Resolve de-duplicates alternatives by their %v text', 'alternatives that print alike but are unequal (empty vs nil slice, []string{"a b"} vs {"a","b"})'),
+ 'C19-A': ('C19', 'SprintV calls Error()/String() directly', 'logging on and a typed-nil or panicking Stringer/error among arguments or results'),
+ 'C19-B': ('C19', 'debug interceptor flattens the variadic slice and uses Call', 'logging on, variadic Apply callback that depends on the slice being nil or shared with the caller'),
+})
+
+for sid, (prop, change, needs) in sorted(SUMMARY.items()):
     d = os.path.join(HERE, 'seeded', sid)
     tj = os.path.join(d, 'triage.json')
     if not os.path.exists(tj):
